@@ -108,6 +108,23 @@ def task_pairwise(pr, repo):
                    same and m.attrs['default'] == (3.0, 4.0) and r == (3.0, 4.0))
     pr.explore(ex, t_default, 'PairwiseMatrix default')
 
+    def t_lookup_frame(ex, ctx):
+        # a look-up is a pure read: it stores nothing, so a default declared LATER (a second parameter file read into the same object)
+        # applies to every unspecified pair, in both orientations, whether or not the pair was looked up before
+        d = prestate((1, 0, 0, 0, 0, 0))
+        m = record('pm', P, name='x', dictionary=d, default=(R('old0'), R('old1')))
+        gv = repo.func(PM + '.get_value')
+        r0 = ex.call_function(gv, ['g1', 'o'], self_obj=m)
+        snap_ok = set(m.attrs['dictionary']) == {'g1', 'g2'} and all(set(v) <= {'g1', 'g2'} for v in m.attrs['dictionary'].values())
+        ex.call_function(repo.func(PM + '.add'), [('default', '2.0', '3.5')], self_obj=m)
+        r1 = ex.call_function(gv, ['g1', 'o'], self_obj=m)
+        r2 = ex.call_function(gv, ['o', 'g1'], self_obj=m)
+        ctx.oblige('PW: get_value stores nothing; an unspecified pair looked up BEFORE the default was (re)declared gives the default '
+                   'now in force, in both orientations',
+                   And(snap_ok, r0[0] == R('old0'), *[Sym(to_bool(x == y)) if isinstance(x == y, Sym) else (x == y)
+                                                        for x, y in ((r1[0], 2.0), (r1[1], 3.5), (r2[0], 2.0), (r2[1], 3.5))]))
+    pr.explore(ex, t_lookup_frame, 'PairwiseMatrix look-up frame')
+
 
 def task_interaction(pr, repo):
     ex = Executor(repo)
@@ -286,7 +303,8 @@ def run(pr, repo):
     pr.explanation = ('deductive proof of the table invariants (VC) + exhaustive ground evaluation of the shipped file; '
                       'level is "other" because 3 recorded known findings (D10a-c) mean the completeness clause does NOT hold on this tree: '
                       'their obligations are refuted on every run and reported as KNOWN-FINDING, so discharged < obligations')
-    pr.parallel([(task_pairwise, ()), (task_interaction, ()), (task_squared, ()), (task_read_file, ())])
+    from . import C03
+    pr.parallel([(task_pairwise, ()), (task_interaction, ()), (task_squared, ()), (task_read_file, ()), (C03.task_param_lookup, ())])
     ground_shipped(pr, repo)
     pr.assumptions += ['PW: pre-states range over the universe {g1, g2, other}; entries of further names behave like "other" '
                        '(add() touches only the two keys it is given)',
